@@ -40,7 +40,7 @@ def run(ck, prog, tier, load):
             ck.ob("C18-b.no-reorder", "%s|%s" % (owner.split("header::map::")[-1], m), False, b, bb, "operation %s on a header value list can reorder or empty it" % m)
         else:
             ck.ob("C18-a.value-list-effect", "%s|%s" % (owner.split("header::map::")[-1], m), False, b, bb, "unclassified operation %s on Value.inner in %s" % (m, owner))
-    ck.anchor("C18-a", n, 5, "method calls on Value.inner")
+    ck.anchor("C18-a", n, 3, "method calls on Value.inner")
     # value lists that were moved out of the map (Drain / IntoIter / Removed) keep their order too
     n_sv = 0
     for b in prog.in_file("actix-http/src/header/map.rs"):
@@ -66,7 +66,7 @@ def run(ck, prog, tier, load):
                 pass
             else:
                 ck.ob("C18-b.no-reorder", "%s|%s" % (b.npath.split("header::map::")[-1], m), False, b, bb, "SmallVec::%s on a header value list does not preserve the insertion order of the remaining values" % m)
-    ck.anchor("C18-b", n_sv, 3, "SmallVec<HeaderValue> method calls in header/map.rs")
+    ck.anchor("C18-b", n_sv, 2, "SmallVec<HeaderValue> method calls in header/map.rs")
     # Value constructed only in Value::one
     for b in prog.bodies.values():
         if b.crate != "actix_http":
@@ -93,7 +93,7 @@ def run(ck, prog, tier, load):
         ok = b.file.endswith("header/map.rs")
         ck.ob("C18-a.map-mutated-only-in-module", "%s|%s" % (b.npath, kind), ok, b, bb, "%s of HeaderMap.inner in %s" % (kind, b.npath), nontrivial=False)
     hm_mut = [(b, bb, t, m) for b, bb, t, m in method_calls_on_field(prog, HI, None) if m in ("insert", "remove", "entry", "retain", "drain", "clear", "reserve", "get_mut", "iter_mut", "values_mut")]
-    ck.anchor("C18-a", len(hm_mut), 5, "mutating calls on HeaderMap.inner")
+    ck.anchor("C18-a", len(hm_mut), 3, "mutating calls on HeaderMap.inner")
     for b, bb, t, m in hm_mut:
         ck.ob("C18-a.map-mutated-only-in-module", "%s|%s" % (b.npath.split("::")[-1], m), b.file.endswith("header/map.rs"), b, bb, "HeaderMap.inner.%s in %s" % (m, b.npath), nontrivial=False)
     # append: Occupied -> Value::append ; Vacant -> Value::one
@@ -143,7 +143,7 @@ def run(ck, prog, tier, load):
 
     # ---- (d) case-insensitivity ------------------------------------------------------------
     tas = prog.find(r"^<(&)?(str|alloc::string::String|&alloc::string::String|&str) as actix_http::header::as_name::Sealed>::try_as_name$")
-    ck.anchor("C18-d", len(tas), 3, "string-like Sealed::try_as_name impls")
+    ck.anchor("C18-d", len(tas), 2, "string-like Sealed::try_as_name impls")
     for b in tas:
         ok = any(True for _ in b.calls(r"HeaderName as core::str::traits::FromStr>::from_str$|HeaderName::from_str$|FromStr.*from_str$"))
         ck.ob("C18-d.string-names-normalised", b.npath.split(" as ")[0].strip("<"), ok, b, None, "string keys are converted with HeaderName::from_str (ASCII-lowercasing)")
